@@ -1,6 +1,6 @@
 SPECIFICATION Spec
 CONSTANTS NW = 2  NR = 1  MaxW = 2  MaxI = 0  MaxJ = 0  JunkLens <- JL1
-  UseWMu = FALSE  UseRMu = TRUE  UseLk = TRUE  DeobfInLock = TRUE  JunkRetry = TRUE  UnlockOnRetry = TRUE
+  UseWMu = FALSE  UseRMu = TRUE  UseLk = TRUE  DeobfInLock = TRUE  JunkRetry = TRUE  UnlockOnRetry = TRUE  KeyOwned = TRUE
 INVARIANT NoViolation
 
 VIEW View
